@@ -83,6 +83,43 @@ func (g *G) pairs(f func(ai, bi int, x, y *ty.Val)) {
 	}
 }
 
+// shorterView returns a copy of the instantiated value v in which the first slice of two or more elements is
+// replaced by a shorter view of the SAME backing array (same address, same element objects, one element fewer, one
+// more of spare capacity): equal where they overlap, different in length.
+func shorterView(v *ty.Val) (*ty.Val, bool) {
+	if v.K == ty.VSlice && len(v.Elems) >= 2 {
+		c := *v
+		c.Elems = v.Elems[:len(v.Elems)-1]
+		c.Spare = v.Spare + 1
+		return &c, true
+	}
+	for i, e := range v.Elems {
+		if v.K == ty.VMap && i%2 == 0 {
+			continue
+		}
+		if ne, ok := shorterView(e); ok {
+			c := *v
+			c.Elems = append([]*ty.Val(nil), v.Elems...)
+			c.Elems[i] = ne
+			if v.K == ty.VPtr || v.K == ty.VMap || v.K == ty.VSlice {
+				// the container holds another element now: it is another object
+				return nil, false
+			}
+			return &c, true
+		}
+	}
+	return nil, false
+}
+
+func (g *G) withViews(f func(x, view *ty.Val)) {
+	for _, a := range g.pool {
+		x := g.vg.Inst(a)
+		if w, ok := shorterView(x); ok {
+			f(x, w)
+		}
+	}
+}
+
 func (g *G) withMutations(f func(x, mu *ty.Val)) {
 	for _, a := range g.pool {
 		x := g.vg.Inst(a)
@@ -112,6 +149,14 @@ func (g *G) emitEqual() {
 		if (ai+bi)%4 == 0 {
 			g.ow.op("equalc", g.tn, x.Wire(), y.Wire())
 		}
+	})
+	g.withViews(func(x, w *ty.Val) {
+		g.ow.op("equal", g.tn, x.Wire(), w.Wire())
+		g.ow.op("equalc", g.tn, x.Wire(), w.Wire())
+		if asField {
+			g.ow.op("equalf", g.tn, x.Wire(), w.Wire())
+		}
+		g.stats["views:equal"]++
 	})
 	for _, a := range g.pool {
 		x := g.vg.Inst(a)
@@ -163,6 +208,15 @@ func (g *G) emitCompare(withEqual bool) {
 		x := g.vg.Inst(a)
 		g.ow.op("compare", g.tn, x.Wire(), x.Wire())
 	}
+	g.withViews(func(x, w *ty.Val) {
+		g.ow.op("compare", g.tn, x.Wire(), w.Wire())
+		g.ow.op("comparec", g.tn, x.Wire(), w.Wire())
+		g.ow.op("comparef", g.tn, x.Wire(), w.Wire())
+		if withEqual {
+			g.ow.op(ceq, g.tn, x.Wire(), w.Wire())
+		}
+		g.stats["views:compare"]++
+	})
 	g.withMutations(func(x, mu *ty.Val) {
 		g.ow.op("compare", g.tn, x.Wire(), mu.Wire())
 		g.ow.op("compare", g.tn, mu.Wire(), x.Wire())
